@@ -92,6 +92,12 @@ def run_writer_programs(rep, wd, scenarios, label, neg_control=True, referees=Fa
         os.makedirs(dump, exist_ok=True)
         for s in scenarios:
             s["dump"] = dump
+    # (a third of the programs hand their extra data to the writer through write_vectored instead of write)
+    for k_, s_ in enumerate(scenarios):
+        if k_ % 3 == 1:
+            for o_ in s_["ops"]:
+                if o_.get("op") == "WriteExtra" and "vec" not in o_:
+                    o_["vec"] = True
     vlib.write_ndjson(progs, scenarios)
     vlib.run_harness(["wexec", progs, trace])
     if referees:
@@ -639,6 +645,21 @@ def c13(tier):
                     ops.append({"op": "Write", "data": g.payload()})
             ops.append({"op": g.r.choice(["Finish", "Finish", "Finish", "Drop"])})
         scs.append({"sc": "ap%05d-%s" % (i, kind), "ops": ops})
+    # a REFUSED call right after opening for append (too-long name, unsupported method, bad level, invalid extra data, write without a
+    # file), then valid ones: the refusal must not cost the last old entry its protection (its header is never re-patched)
+    bad_first = [[dict(op="StartFile", name={"rep": "n", "n": 65536}, method=8)], [dict(op="AddDir", name={"rep": "d", "n": 65535}, method=0)],
+                 [dict(op="StartFile", name="bad-method", method=99)], [dict(op="StartFile", name="bad-level", method=8, level=77)],
+                 [dict(op="Write", data="no entry is open")], [dict(op="EndExtra")],
+                 [dict(op="StartFileExtra", name="bad-extra", method=0), dict(op="WriteExtra", recs=[{"id": 1, "dsz": 8}]), dict(op="EndExtra")],
+                 [dict(op="AddSymlink", name={"rep": "s", "n": 70000}, target="t", method=0)]]
+    for j, bad in enumerate(bad_first):
+        for base_last in ("plain", "large", "aligned"):
+            last = {"plain": [dict(op="StartFile", name="old-last", method=8), dict(op="Write", data="the last old entry " * 5)],
+                    "large": [dict(op="StartFile", name="old-last", method=0, large=True), dict(op="Write", data="the last old entry " * 5)],
+                    "aligned": [dict(op="StartFileAligned", name="old-last", method=0, align=256), dict(op="Write", data="the last old entry " * 5)]}[base_last]
+            ops = [dict(op="New"), dict(op="StartFile", name="old-first", method=0), dict(op="Write", data="first")] + last + [dict(op="Finish"), dict(op="NewAppend", arch=0)]
+            ops += bad + [dict(op="StartFile", name="new-entry", method=8), dict(op="Write", data="appended after a refused call"), dict(op="Finish")]
+            scs.append({"sc": "apbad-%d-%s" % (j, base_last), "ops": ops})
     ix = gen_writer.interaction_programs(sd * 7919 + 13, "ix", only=lambda row: row["life"] != "fresh")
     rep.notes["interaction_rows"] = len(ix)
     scs += ix
@@ -1300,7 +1321,7 @@ def c09(tier):
                 reads.append(q)
                 if not enc and not (e["flags"] & 8):
                     reads.append({"i": i, "via": "stream", "bufs": bf, "under": un, "exp": exp})
-            for api in ("read_to_end", "read_to_end0", "copy", "read_exact", "bytes"):
+            for api in ("read_to_end", "read_to_end0", "copy", "read_exact", "bytes", "sniff_read_to_end", "sniff_copy", "sniff_read_exact", "read_vectored"):
                 q = {"i": i, "via": "seek", "bufs": [4096], "under": rnd.choice(SCHED_UNDER), "exp": exp, "api": api}
                 if enc:
                     q["pw"] = pws[0].hex()
@@ -1441,10 +1462,10 @@ def c04(tier):
                           "dmg": {"data": "data", "ccrc": "none", "lcrc": "crc"}[site]})
         # the other std ways of reading to the end go through the same integrity check
         if rnd.random() < 0.5:
-            q2 = dict(q, api=rnd.choice(["read_to_end", "read_to_end0", "copy", "read_exact", "bytes"]), under={})
+            q2 = dict(q, api=rnd.choice(["read_to_end", "read_to_end0", "copy", "read_exact", "bytes", "sniff_read_to_end", "sniff_copy", "read_vectored"]), under={})
             reads.append(q2)
             if streamable(v, i):
-                reads.append(dict(reads[1], api=rnd.choice(["read_to_end", "copy", "read_exact"]), under={}))
+                reads.append(dict(reads[1], api=rnd.choice(["read_to_end", "copy", "read_exact", "sniff_read_to_end", "read_vectored"]), under={}))
         scs.append({"sc": "f-%s-%d-%s-%d.%d" % (name, i, site, pos, bit), "hex": flip(b, pos, bit).hex(), "reads": reads,
                     "note": "bit %d of byte %d (%s of entry %d)" % (bit, pos, site, i)})
     # the declared CRC wiped to 0x00000000 (a value some readers treat as "no checksum"), alone and together with data damage
@@ -1950,6 +1971,14 @@ def c10(tier):
             s["ops"].insert(1, {"op": "StartFile", "name": "only", "method": 8})
         s["dump"] = dump
         ws.append(s)
+    # local headers whose name and extra field are each representable but together exceed 65 535 bytes; names at the limit
+    for j, (nlen, xlen, large) in enumerate([(40000, 30004, False), (65535, 0, True), (65535, 65000, False), (30000, 40000, True)]):
+        ops = [{"op": "New"}, {"op": "StartFile", "name": "first", "method": 8}, {"op": "Write", "data": "first"},
+               {"op": "StartFileExtra", "name": {"rep": "n", "n": nlen}, "method": 0, "large": large}]
+        if xlen:
+            ops.append({"op": "WriteExtra", "recs": [{"id": 0xbeef, "dsz": xlen - 4}]})
+        ops += [{"op": "EndExtra"}, {"op": "Write", "data": "long header"}, {"op": "StartFile", "name": "last", "method": 8}, {"op": "Write", "data": "last"}, {"op": "Finish"}]
+        ws.append({"sc": "wlong%d" % j, "ops": ops, "dump": dump})
     progs = os.path.join(wd, "w-programs.ndjson")
     wtrace = os.path.join(wd, "w-trace.ndjson")
     vlib.write_ndjson(progs, ws)
@@ -1991,7 +2020,8 @@ def c10(tier):
                 e["lextra"] = [(0xcafe, b"l" * rnd.randint(0, 9))] if rnd.random() < 0.6 else []
                 e["lextra_tail"] = bytes(rnd.randint(0, 3))
             ents.append(e)
-        b, v = refzip.build({"entries": ents, "comment": b"stream"})
+        # (a third of them end in ZIP64 end records: what follows the last central record is not always the short end record)
+        b, v = refzip.build({"entries": ents, "comment": b"stream", "z64end": i % 3 == 1})
         datas = [e["data"] for e in v["entries"]]
         for pi, (plan, pcrc) in enumerate(stream_plans(rnd, datas, 3 if tier == "quick" else 10)):
             scs.append({"sc": "r%04d-p%d" % (i, pi), "hex": b.hex(), "plan": plan, "pcrc": pcrc, "under": rnd.choice(SCHED_UNDER),
@@ -2564,13 +2594,21 @@ def c06(tier):
         s = "".join(chr(rnd.choice([rnd.randrange(0, 128), rnd.randrange(0, 128), 46, 47, 92, rnd.randrange(0x80, 0x800), rnd.randrange(0x4e00, 0x9fff)])) for _ in range(n))
         names.append(s.encode()[:500])
     names = list(dict.fromkeys(names))
-    rep.notes["names"] = len(names)
+    # names whose BYTES are not what the accessors see: CP437 high bytes and ill-formed UTF-8 around NUL and separators (the decoded
+    # string is longer than the stored bytes, so byte offsets into one are not offsets into the other) - with and without the flag
+    hi = [b"".join(t) for ln in range(1, 5) for t in itertools.product([b"a", b"\x80", b"\x00", b"/", b"\xc3", b".."], repeat=ln)]
+    hi = [h for h in hi if any(c >= 0x80 for c in h)]
+    rep.notes["names"] = len(names) + 2 * len(hi)
     scs = []
     per = 400
     for i in range(0, len(names), per):
         ents = [{"name": nm, "utf8": not (k % 3 == 0 and all(c < 0x80 for c in nm)), "method": 0, "data": b""} for k, nm in enumerate(names[i:i + per])]
         b, v = refzip.build({"entries": ents})
         scs.append({"sc": "pa%06d" % i, "hex": b.hex(), "expect": [], "paths": True, "max_entries": 0})
+    for flag in (False, True):
+        for i in range(0, len(hi), per):
+            b, v = refzip.build({"entries": [{"name": nm, "utf8": flag, "method": 0, "data": b""} for nm in hi[i:i + per]]})
+            scs.append({"sc": "ph%d-%06d" % (flag, i), "hex": b.hex(), "expect": [], "paths": True, "max_entries": 0})
     progs = os.path.join(wd, "paths-scenarios.ndjson")
     trace = os.path.join(wd, "paths-trace.ndjson")
     vlib.write_ndjson(progs, scs)
@@ -2860,6 +2898,22 @@ def extract_archives(rnd, n, sbx_abs):
                     except UnicodeDecodeError:
                         e.pop("lname")
             kind = "diverge"
+        if i % 9 == 4:
+            # a symlink-typed entry whose content names a place outside the target (or the target itself), followed by entries whose
+            # names pass THROUGH it: whatever an extractor does with link entries, nothing may be written outside
+            tgt = rnd.choice([b"../C", sbx_abs.encode() + b"/C", b"..", b"/", b"../../", b"."])
+            lname = rnd.choice([b"link", b"a/link", b"docs"])
+            ents = ents[:2] + [{"name": lname, "utf8": True, "method": 0, "data": tgt, "system": 3, "eattr": (0o120777 << 16), "_mode": 0o120777},
+                               {"name": lname + b"/pwn.txt", "utf8": True, "method": rnd.choice([0, 8]), "data": b"written through the link", "system": 3,
+                                "eattr": (0o100644 << 16), "_mode": 0o100644},
+                               {"name": lname + b"/sub/", "utf8": True, "method": 0, "data": b"", "system": 3, "eattr": (0o40755 << 16), "_mode": 0o40755}]
+            kind = "symlink"
+        elif i % 9 == 7:
+            # an entry far larger than any internal buffer (compressed data > 32 KiB, not extremely compressible): it must come out whole
+            blob = bytes(rnd.randrange(256) if (j_ // 64) % 3 else 65 for j_ in range(rnd.choice([70000, 200000, 300001])))
+            ents = ents[:2] + [{"name": b"big/blob-%d.bin" % i, "utf8": True, "method": rnd.choice([8, 12, 0]), "data": blob, "system": 3,
+                                "eattr": (0o100600 << 16), "_mode": 0o100600}] + ents[2:3]
+            kind = "big"
         b, v = refzip.build({"entries": [{k2: v2 for k2, v2 in e.items() if not k2.startswith("_")} for e in ents]})
         out.append((kind, b, [{"raw": list(e["name"]), "lraw": list(e.get("lname", e["name"])), "mode": e["_mode"], "data": [len(e["data"]), crc_hex(e["data"])]} for e in ents]))
     return out
@@ -3482,6 +3536,10 @@ def c05(tier):
     defs = {
         "plain": ({"comment": b"seed", "entries": [{"name": b"a.txt", "method": 8, "data": txt, "fcomment": b"fc"}, {"name": b"dir/", "method": 0, "data": b""},
                                                     {"name": "ü.bin".encode(), "utf8": True, "method": 0, "data": rb, "lextra": [(0xcafe, b"xy")], "cextra": [(0xbeef, b"z")]}]}, []),
+        # names no well-behaved producer writes: NUL after a CP437 high byte, NUL inside ill-formed "UTF-8", only separators and dots
+        "names": ({"entries": [{"name": b"\x80\x00b", "method": 0, "data": b"n1"}, {"name": b"caf\x82\x00/\xe1", "method": 8, "data": txt},
+                               {"name": b"\xff\xfe\x00\xc3", "utf8": True, "method": 0, "data": b"n3"}, {"name": "é\x00ü/../x".encode(), "utf8": True, "method": 0, "data": b"n4"},
+                               {"name": b"\x00", "method": 0, "data": b""}, {"name": b"/../\\..\\", "method": 0, "data": b"n6", "fcomment": b"\x00\x9b"}]}, []),
         "z64": ({"z64end": True, "entries": [{"name": b"z1", "method": 8, "data": txt, "z64": {"usize", "csize", "off"}, "lz64": True},
                                              {"name": b"z2", "method": 0, "data": rb, "z64": {"off"}}]}, []),
         "dd": ({"entries": [{"name": b"d1", "method": 8, "data": txt, "dd": "sig32"}, {"name": b"d2", "method": 0, "data": rb, "dd": "nosig64", "lz64": True}]}, []),
